@@ -30,6 +30,8 @@ type DCase struct {
 	Name   string            `json:"name"`
 	Design *designgen.Design `json:"design"`
 	Expect string            `json:"expect,omitempty"` // witness: the signature it must fail with
+	// NoExample: only the gen command (hostile stream: the example scaffolding does not depend on the mapping)
+	NoExample bool `json:"no_example,omitempty"`
 }
 
 // Verdict is what happened to one design.
@@ -98,6 +100,9 @@ type workerLine struct {
 	Verdict *Verdict `json:"verdict,omitempty"`
 }
 
+// evalOnly: the worker stops after Design.Eval() (accepted / rejected / eval-panic)
+var evalOnly bool
+
 func workerMain(casesFile, root string, shard, shards, from int, example bool) {
 	b, err := os.ReadFile(casesFile)
 	must(err)
@@ -110,7 +115,20 @@ func workerMain(casesFile, root string, shard, shards, from int, example bool) {
 		}
 		must(enc.Encode(workerLine{Idx: i, Start: true}))
 		normalizeDesign(c.Design)
-		v := generateOne(c.Design, filepath.Join(root, fmt.Sprintf("d%d", i)), example)
+		if evalOnly {
+			openapi.Definitions = make(map[string]*openapi.Schema)
+			o := c.Design.Eval()
+			v := Verdict{Stage: "accepted"}
+			switch {
+			case o.Panic != "":
+				v = Verdict{Stage: "eval-panic", Msg: firstLines(o.Panic, 1) + " @ " + panicSite(o.Panic)}
+			case !o.Accepted:
+				v = Verdict{Stage: "rejected", Msg: firstLines(fmt.Sprint(o.Err), 2)}
+			}
+			must(enc.Encode(workerLine{Idx: i, Verdict: &v}))
+			continue
+		}
+		v := generateOne(c.Design, filepath.Join(root, fmt.Sprintf("d%d", i)), example && !c.NoExample)
 		must(enc.Encode(workerLine{Idx: i, Verdict: &v}))
 	}
 }
@@ -123,7 +141,7 @@ func runShard(casesFile, root string, shard, shards int, example bool, vs []Verd
 	for {
 		self, err := os.Executable()
 		must(err)
-		cmd := exec.Command(self, "-worker", "-cases", casesFile, "-root", root, "-shard", fmt.Sprint(shard), "-shards", fmt.Sprint(shards), "-from", fmt.Sprint(from), fmt.Sprintf("-example=%v", example))
+		cmd := exec.Command(self, "-worker", "-cases", casesFile, "-root", root, "-shard", fmt.Sprint(shard), "-shards", fmt.Sprint(shards), "-from", fmt.Sprintf("%d", from), fmt.Sprintf("-example=%v", example), fmt.Sprintf("-evalonly=%v", evalOnly))
 		cmd.Dir = root
 		stdout, err := cmd.StdoutPipe()
 		must(err)
@@ -218,6 +236,9 @@ func runBatch(cases []DCase, root, repo, stubs string, example bool) ([]Verdict,
 		}(k)
 	}
 	wg.Wait()
+	if evalOnly {
+		return vs, nil
+	}
 	// `go list -export` compiles every package (type check + code generation) without linking the
 	// example binaries; diagnostics have the format of `go build`
 	cmd := exec.Command("go", "list", "-export", "-gcflags=-e", "-f", "{{.ImportPath}}", "./...")
